@@ -2,10 +2,13 @@ package main
 
 import (
 	"fmt"
+	"regexp"
 	"strings"
 )
 
 // C11: inserted text follows the file's own style, deterministically.
+
+var reTimeTok = regexp.MustCompile(`\d{1,2}:\d{2}(am|pm)?`)
 
 type sRecord struct {
 	date    ymd
@@ -190,6 +193,8 @@ func init() {
 			case "start", "switch":
 				if r.P(1, 3) {
 					cmd.Time = Pick(r, []string{"23:00", "11:00pm"})
+				} else if r.P(1, 3) {
+					cmd.Round = Pick(r, []int{5, 15, 30, 60}) // rounding the current time is not an explicit time: the file's clock convention applies
 				}
 				if r.P(1, 3) {
 					cmd.HasSummary, cmd.Summary = true, []string{"work", "second line"}
@@ -197,6 +202,8 @@ func init() {
 			case "stop":
 				if r.P(1, 3) {
 					cmd.Time = Pick(r, []string{"23:00", "11:00pm"})
+				} else if r.P(1, 3) {
+					cmd.Round = Pick(r, []int{5, 15, 30, 60})
 				}
 				if r.P(1, 2) {
 					cmd.HasSummary, cmd.Summary = true, []string{"done", "second line"}
@@ -341,6 +348,32 @@ func runC11(env *Env, data map[string]any) *Outcome {
 			}
 			if !good {
 				o.Findings = append(o.Findings, Finding{Kind: "D", What: fmt.Sprintf("an added line (%q) is not indented with the style the target record / the file's records use (%q)", body, okIndents), Impl: hx(first.After)})
+				break
+			}
+		}
+	}
+	// generated times follow the configured preference, else the target record's clock convention, else the
+	// other records', else 24h — unless the user typed the time
+	if (c.Cmd.Kind == "start" || c.Cmd.Kind == "switch" || c.Cmd.Kind == "stop") && c.Cmd.Time == "" {
+		old := map[string]int{}
+		for _, t := range reTimeTok.FindAllString(c.Text, -1) {
+			old[t]++
+		}
+		ok24 := allowed("is24", -1, 1)
+		if c.Cfg.T24 != "" {
+			ok24 = []string{c.Cfg.T24}
+		}
+		for _, t := range reTimeTok.FindAllString(first.After, -1) {
+			if old[t] > 0 {
+				old[t]--
+				continue
+			}
+			is24 := "1"
+			if strings.HasSuffix(t, "m") {
+				is24 = "0"
+			}
+			if !in(is24, ok24) {
+				o.Findings = append(o.Findings, Finding{Kind: "D", What: fmt.Sprintf("the generated time %q does not follow the clock convention of the configuration / the target record / the file's records (24h allowed: %v)", t, ok24), Impl: hx(first.After)})
 				break
 			}
 		}
